@@ -651,7 +651,7 @@ func (c *AbstractVariantOperations) Equal(
 		result.SetAsBoolean(date1.Equal(date2))
 		return result, nil
 	case Object:
-		result.SetAsBoolean(value1.AsObject() == value2.AsObject())
+		result.SetAsBoolean(equalValues(value1.AsObject(), value2.AsObject()))
 		return result, nil
 	}
 
@@ -716,7 +716,7 @@ func (c *AbstractVariantOperations) NotEqual(
 		result.SetAsBoolean(!date1.Equal(date2))
 		return result, nil
 	case Object:
-		result.SetAsBoolean(value1.AsObject() != value2.AsObject())
+		result.SetAsBoolean(!equalValues(value1.AsObject(), value2.AsObject()))
 		return result, nil
 	}
 
